@@ -39,6 +39,14 @@ for name, props, patch in items:
             t = time.time()
             r = sh([os.path.join(V, "check"), prop, "--tier", "quick"], cwd=V, capture_output=True, text=True)
             lines = [l for l in r.stdout.splitlines() if l.startswith("VIOLATION") or l.startswith("MACHINERY")]
+            # keep the first witness as a regression file: replays/<prop>/witness__<item>.json
+            for l in lines:
+                if l.startswith("VIOLATION") and "replay=" in l:
+                    src = l.split("replay=", 1)[1].strip()
+                    if os.path.exists(src):
+                        dst = os.path.join(V, "replays", prop, "witness__" + name.replace("/", "_") + ".json")
+                        shutil.copy(src, dst)
+                    break
             sigs = [l.strip() for l in r.stdout.splitlines() if l.strip().startswith("signature=")]
             verdicts.append((prop, r.returncode, lines[:2], sigs[:2], round(time.time() - t, 1)))
             if os.path.exists(bak): shutil.move(bak, ev)
@@ -52,5 +60,7 @@ for r in results:
         for v in r[2]: print("   ", v[0], "rc=%s" % v[1], v[3][:1], f"{v[4]}s")
     else: print("   ", r[2])
 # replays written while a mutant was applied are not evidence about the real tree
-sh(["git", "-C", V, "clean", "-fdq", "replays"])
+for f in glob.glob(os.path.join(V, "replays", "*", "*.json")):
+    if not os.path.basename(f).startswith("witness__") and sh(["git", "-C", V, "ls-files", "--error-unmatch", f], capture_output=True).returncode != 0:
+        os.remove(f)
 sys.exit(0 if all(r[1] == "DETECTED" for r in results) else 1)
